@@ -69,7 +69,7 @@ def programs(tier, seed):
     if tier == "quick":
         rng.shuffle(progs)
         progs = progs[:260]
-    extra = 60 if tier == "quick" else 1500
+    extra = 60 if tier == "quick" else 600
     allops = ops_for("k1", True) + ops_for("k2", False)
     for _ in range(extra):
         shape = rng.choice([(2, 1), (1, 2), (2, 2), (1, 1, 1)])
@@ -221,8 +221,17 @@ def run_modes(run, progs, modes, maxsched, prop):
     for mode, ls in modes:
         label = "%s-%dstripes" % (mode, 1 << ls)
         outs[label] = explore(run, progs, mode, ls, maxsched, label)
-    with ThreadPoolExecutor(max_workers=len(outs)) as ex:
-        futs = [ex.submit(validate, run, files, prop, label) for label, files in outs.items()]
+    # validate in pieces of bounded size (one TLC run per piece) so that memory stays bounded
+    jobs = []
+    for label, files in outs.items():
+        total = sum(os.path.getsize(f) for f in files)
+        if total < 120 << 20:
+            jobs.append((files, label))
+        else:
+            for i, f in enumerate(files):
+                jobs.append(([f], "%s/part%d" % (label, i)))
+    with ThreadPoolExecutor(max_workers=3) as ex:
+        futs = [ex.submit(validate, run, files, prop, label) for files, label in jobs]
         for f in futs:
             f.result()
 
@@ -235,7 +244,7 @@ def check_c03(prop, tier, seed):
     if quick:
         progs = progs[:130] + progs[260:290]
     modes = [("multi", 0), ("single", 0), ("multi", 1)] if quick else [("multi", 0), ("single", 0), ("multi", 1), ("single", 2), ("multi", 8)]
-    run_modes(run, progs, modes, 250 if quick else 3000, prop)
+    run_modes(run, progs, modes, 250 if quick else 800, prop)
     run.assumptions += ["handler calls are atomic steps (one backend request each for the direct handler)",
                         "commands linearize between invocation and return; order inferred by TLC"]
     return run.finish(exhaustive=False, rule="depth-first enumeration of the schedules of the real LockedOrca/L1L2/L1L2Batch code for each program (2 clients x 1 command exhaustively over op pairs, port pairs and 3 initial states; larger programs sampled); each execution validated by TLC (OrcaLin)")
